@@ -8,7 +8,7 @@ program = {
                "h": handle|None, "hooks": [[emit..]..]}],
   "batch": bool  (schedule the initial events as one list or one by one)
 }
-behaviour = {"imm": [emit..], "shape": "none|one|list", "resolve": [[fid, val]..], "cancel": [handle..]}
+behaviour = {"imm": [emit..], "shape": "none|one|list|shared", "resolve": [[fid, val]..], "cancel": [handle..]}
           | {"proc": [step..]}
 step = ["delay", ticks] | ["delaye", ticks] | ["delayfx", ticks, [emit..]] | ["wait", fid] | ["waitc", tree]
      | ["resolve", fid, val] | ["cancel", handle] | ["call", [step..]] | ["ret", [emit..]]
@@ -94,7 +94,8 @@ def program_strategy(draw, tier="quick", procs=True, futures=True, combinators=T
     emits = emit_strategy(n, with_hooks=hooks, dts=dts, jitter=jitter, handles=3 if cancels else 0)
     imm = st.fixed_dictionaries({
         "imm": st.lists(emits, max_size=3),
-        "shape": st.sampled_from(["none", "one", "list", "list"]),
+        # "shared": like "list", but a handler with nothing to emit returns one module-level empty list (a `_NOTHING = []` constant)
+        "shape": st.sampled_from(["none", "one", "list", "list", "shared"]),
         "resolve": st.lists(st.tuples(st.integers(0, max(0, nfut - 1)), VALS).map(list),
                             max_size=2 if nfut else 0),
         "cancel": st.lists(st.integers(0, 2), max_size=1 if cancels else 0),
@@ -231,6 +232,8 @@ class RealRun:
                         return None
                     if shape == "one":
                         return evs[0] if evs else None
+                    if shape == "shared" and not evs:
+                        return _SHARED_EMPTY         # the same list object every time; nobody may write into it
                     return evs
                 return self.proc(beh["proc"], fuel, uid, event)
 
